@@ -23,11 +23,19 @@ import (
 )
 
 const (
-	repoDir    = "/repo"
 	verifDir   = "/verif"
 	harnessDir = "/verif/harness"
 	propsPkg   = "github.com/ElrondNetwork/elrond-vm-common/zz_verif/props"
 )
+
+// repoDir is /repo; GOSMT_REPO points the tool at a scratch worktree for experiments with seeded
+// changes (registered commands never set it).
+var repoDir = func() string {
+	if d := os.Getenv("GOSMT_REPO"); d != "" {
+		return d
+	}
+	return "/repo"
+}()
 
 func goEnv() []string {
 	env := os.Environ()
@@ -56,6 +64,7 @@ func overlay(withTests bool) map[string][]byte {
 }
 
 func load() (*ssa.Program, *ssa.Package, error) {
+	sym.RepoRoot = repoDir + "/"
 	cfg := &packages.Config{
 		Mode:       packages.LoadAllSyntax,
 		Dir:        repoDir,
